@@ -178,6 +178,7 @@ func (e *FEnc) constOf(env *Env, name string) (*Val, bool) {
 			// package-level variable: treated as a constant cell
 			nm := "G_" + mangle(p.Path()+"."+n)
 			e.d.add("c:"+nm, fmt.Sprintf("(declare-const %s %s)", nm, e.sortOf(o.Type())))
+			e.globalInitFact(o, nm)
 			return &Val{Ty: o.Type(), Sort: e.sortOf(o.Type()), T: nm}, true
 		}
 		return nil, false
@@ -650,13 +651,24 @@ func (e *FEnc) evalCall(env *Env, x *Ex) (*Val, error) {
 		d := e.heapGet(env.st, dn, ds)
 		m := e.term(args[1])
 		return e.boolVal(fmt.Sprintf("(and (not (= %s nil_ref)) (select (select %s %s) %s))", m, d, m, e.term(args[0]))), nil
+	case "arg": // arg("callee", k): k-th argument of the most recent call to callee on this path
+		if len(x.Args) != 2 || x.Args[0].Op != "str" || x.Args[1].Op != "int" || env.st == nil {
+			return nil, fmt.Errorf("arg(\"callee name\", k)")
+		}
+		ak, _ := strconv.Atoi(x.Args[1].Name)
+		for name, v := range env.st.lastRes {
+			if strings.HasPrefix(name, "args:") && matchPat(x.Args[0].Name, name[5:]) && ak < len(v.Tup) {
+				return v.Tup[ak], nil
+			}
+		}
+		return nil, fmt.Errorf("unknown name arg(%s): no such call on the way here", x.Args[0].Name)
 	case "result": // result("callee", k): k-th result of the most recent call to callee on this path
 		if len(x.Args) != 2 || x.Args[0].Op != "str" || x.Args[1].Op != "int" || env.st == nil {
 			return nil, fmt.Errorf("result(\"callee name\", k)")
 		}
 		k, _ := strconv.Atoi(x.Args[1].Name)
 		for name, v := range env.st.lastRes {
-			if matchPat(x.Args[0].Name, name) {
+			if !strings.HasPrefix(name, "args:") && matchPat(x.Args[0].Name, name) {
 				if v.Tup != nil {
 					if k < len(v.Tup) {
 						return v.Tup[k], nil
@@ -848,9 +860,13 @@ func (e *FEnc) evalCall(env *Env, x *Ex) (*Val, error) {
 			}
 		}
 		res := fn.Signature.Results()
+		pkey := fn.String()
+		if fsig := fn.Signature; fsig.Variadic() && len(args) >= fsig.Params().Len()-1 {
+			pkey += fmt.Sprintf("_v%d", len(args)-(fsig.Params().Len()-1))
+		}
 		mk := func(i int) *Val {
 			ty := res.At(i).Type()
-			sym, rs := e.pureSym(fn.String(), args, ty, i)
+			sym, rs := e.pureSym(pkey, args, ty, i)
 			var ts []string
 			for _, a := range args {
 				ts = append(ts, e.term(a))
@@ -938,16 +954,23 @@ func (e *FEnc) evalMethod(env *Env, recv *Val, name string, args []*Val) (*Val, 
 		}
 	}
 	all := append([]*Val{recv}, args...)
-	// omitted variadic argument = nil slice
-	if sig.Variadic() && len(args) == sig.Params().Len()-1 {
-		vt := sig.Params().At(sig.Params().Len() - 1).Type()
-		all = append(all, e.zero(vt))
-	}
-	if len(all) != sig.Params().Len()+1 {
+	// variadic functions are written with their variadic arguments spelled out (possibly none)
+	if sig.Variadic() {
+		if len(args) < sig.Params().Len()-1 {
+			return nil, fmt.Errorf("method %s: wrong number of arguments", name)
+		}
+		key += fmt.Sprintf("_v%d", len(args)-(sig.Params().Len()-1))
+	} else if len(all) != sig.Params().Len()+1 {
 		return nil, fmt.Errorf("method %s: wrong number of arguments", name)
 	}
 	for i := 1; i < len(all); i++ {
-		pt := sig.Params().At(i - 1).Type()
+		pi := i - 1
+		var pt types.Type
+		if pi < sig.Params().Len()-1 || !sig.Variadic() {
+			pt = sig.Params().At(pi).Type()
+		} else {
+			pt = sig.Params().At(sig.Params().Len() - 1).Type().(*types.Slice).Elem()
+		}
 		if e.sortOf(pt) == "Iface" && all[i].Sort != "Iface" && all[i].Ty != nil {
 			box, _ := e.d.boxFns(all[i].Ty)
 			all[i] = &Val{Ty: pt, Sort: "Iface", T: fmt.Sprintf("(%s %s)", box, e.term(all[i]))}
